@@ -207,6 +207,18 @@ def many_vars_recipe(draw):
 
     for n in names:
         items.append(store(n))
+    # "last use" gadget: a variable that is read only inside an earlier branch, then - in the last block of the program,
+    # after another branch - re-assigned and copied straight into another variable (adjacent store/load) and never read
+    # again.  It is still its own cell: the copy must carry the new marker and the earlier read the old one.
+    gadget = None
+    gc = [n for n in names if vars_[n].get("slot") is None and vars_[n].get("kind") is None]
+    if gc and draw(st.integers(0, 2)) == 0:
+        gn = gc[draw(st.integers(0, len(gc) - 1))]
+        vars_["cp0"] = {"t": vars_[gn]["t"], "slot": None}
+        fee_cut = draw(st.sampled_from([0, 10**9]))
+        items.append(["if", ["bin", "Lt", ["txn", "fee"], ["int", fee_cut]], ["gput", _key(4000), ["load", gn]], ["gput", _key(4003), ["int", 3]] if draw(st.booleans()) else None, "then"])
+        gadget = gn
+        kinds.add("last-use-gadget")
     rc = 0
     nops = draw(st.integers(0, min(60, 3 * nv) if nv < 120 else 20))
     for _ in range(nops):
@@ -278,12 +290,18 @@ def many_vars_recipe(draw):
             items.append(["gput", _key(6000 + vars_[n]["slot"]), ["index", n]])
     # read everything back
     for j, n in enumerate(names):
-        items.append(read(n, 1000 + j))
+        if n != gadget or draw(st.integers(0, 3)) == 0:
+            items.append(read(n, 1000 + j))
     for i, r in enumerate(routines):
         items.append(["callN", i, []] if r["ret"] == "N" else ["pop", ["call", i, []]])
     if "sh0" in vars_:
         items.append(["gput", _key(5003), ["load", "sh0"]])
     items += tail_ind
+    if gadget is not None:
+        items.append(["if", ["bin", "Lt", ["txn", "fee"], ["int", draw(st.sampled_from([0, 10**9]))]], ["gput", _key(4001), ["int", 1]], None, "then"])
+        items.append(store(gadget))
+        items.append(["store", "cp0", ["load", gadget]])
+        items.append(["gput", _key(4002), ["load", "cp0"]])
     items.append(["int", 1])
     recipe = {"mode": mode, "level": level, "vars": vars_, "routines": routines, "main": ["seq", items], "kinds": sorted(kinds), "nv": nv}
     return recipe
